@@ -106,6 +106,30 @@ def size_terms(ob):
     return [t for t in out if not z3.is_int_value(z3.simplify(t))]
 
 
+def _int_consts(ob):
+    """the integer-valued scalar inputs (for the small-model preference)"""
+    out = []
+
+    def walk(v, seen):
+        if isinstance(v, z3.ExprRef) and z3.is_const(v) and v.sort() == z3.IntSort() and v.decl().kind() == z3.Z3_OP_UNINTERPRETED:
+            out.append(v)
+        elif isinstance(v, Ref) and v.id not in seen:
+            seen.add(v.id)
+            h = ob.heap0.get(v.id)
+            if isinstance(h, Obj):
+                for _, x in h.fields:
+                    walk(x, seen)
+            elif isinstance(h, CList):
+                for x in h.items:
+                    walk(x, seen)
+        elif isinstance(v, tuple):
+            for x in v:
+                walk(x, seen)
+    for v in ob.inputs.values():
+        walk(v, set())
+    return out
+
+
 def model_value(m, v, heap, depth=0):
     """concretise a symbolic input under a model (JSON-able)"""
     def num(x):
@@ -176,14 +200,17 @@ def discharge(ob: Obligation, rlimit):
         model = s.model()
         # prefer a small counter-model (replayable natively): re-solve with all input sizes bounded; the first sat stays valid if none is found
         sizes = size_terms(ob)
-        if sizes:
-            for b in (2, 3, 5):
-                r2, s2, ms2 = check(ob.hyps, ob.goal, 3_000_000, extra=[z3.And(t >= 0, t <= b) for t in sizes])
-                ms += ms2
-                if r2 == z3.sat:
-                    model = s2.model()
-                    backend += f"+small-model(size<={b})"
-                    break
+        ints = _int_consts(ob)
+        for b, ib in ((2, 4), (3, 8), (3, None), (5, None)):
+            extra = [z3.And(t >= 0, t <= b) for t in sizes] + ([z3.And(v >= -ib, v <= ib) for v in ints] if ib is not None else [])
+            if not extra:
+                continue
+            r2, s2, ms2 = check(ob.hyps, ob.goal, 3_000_000, extra=extra)
+            ms += ms2
+            if r2 == z3.sat:
+                model = s2.model()
+                backend += f"+small-model(size<={b}" + (f",|int|<={ib})" if ib is not None else ")")
+                break
     else:
         sizes = size_terms(ob)
         if sizes:
